@@ -91,6 +91,12 @@ func run() int {
 		return 2
 	}
 	defer snap.Close()
+	if id == "C13" || id == "C14" {
+		if err := buildWire(snap); err != nil {
+			fmt.Fprintf(os.Stderr, "INCONCLUSIVE: cannot build google/wire offline: %v\n", err)
+			return 2
+		}
+	}
 
 	vd := verifDir()
 	testBin := filepath.Join(vd, "bin", "verif.test")
@@ -320,3 +326,23 @@ func runReplay(id, testBin string, snap *pipe.Snapshot, replay, outDir string) i
 }
 
 var _ = json.Marshal
+
+// buildWire builds google/wire's CLI (v0.7.0, from the module cache) into the snapshot.
+func buildWire(snap *pipe.Snapshot) error {
+	dir := filepath.Join(snap.Root, "wiretool")
+	_ = os.MkdirAll(dir, 0o755)
+	_ = os.WriteFile(filepath.Join(dir, "go.mod"), []byte("module wiretool\n\ngo 1.25\n\nrequire (\n\tgithub.com/google/wire v0.7.0\n\tgolang.org/x/tools v0.42.0\n)\n"), 0o644)
+	sum := ""
+	for _, f := range []string{filepath.Join(snap.Src, "go.sum"), filepath.Join(snap.Src, "tools", "go.sum")} {
+		if b, err := os.ReadFile(f); err == nil {
+			sum += string(b)
+		}
+	}
+	_ = os.WriteFile(filepath.Join(dir, "go.sum"), []byte(sum), 0o644)
+	_ = os.WriteFile(filepath.Join(dir, "tools.go"), []byte("//go:build tools\n\npackage tools\n\nimport _ \"github.com/google/wire/cmd/wire\"\n"), 0o644)
+	r := pipe.Run(pipe.Cmd{Dir: dir, Args: []string{"go", "build", "-o", filepath.Join(snap.Root, "wire"), "github.com/google/wire/cmd/wire"}, Timeout: 10 * time.Minute})
+	if r.Exit != 0 {
+		return fmt.Errorf("%s", r.Stderr)
+	}
+	return nil
+}
